@@ -20,6 +20,9 @@ def with_opts(sources, r, per=2):
     osets = scope_leg.optsets()
     out = []
     for i, s in enumerate(sources):
+        if i < len(progs.DIRECTED):
+            out.extend((s, o) for o in osets)         # directed shapes: every option set
+            continue
         for k in range(per):
             out.append((s, osets[(i + k * 3) % len(osets)]))
     return out
@@ -149,7 +152,8 @@ def oracle_c09(res, r, tier):
     for i, src in enumerate(base):
         trig = TRIGGERS[i % len(TRIGGERS)]
         lines = src.split('\n')
-        variants = [src + 'print(%s)\n' % trig, 'from m import *\n' + src if 'from __future__' not in src else None]
+        star = ['from m import *', 'from . import *', 'from .. import *', 'from .m import *', 'from a.b import *'][i % 5]
+        variants = [src + 'print(%s)\n' % trig, star + '\n' + src if 'from __future__' not in src else None]
         # put the trigger into the innermost indented body, a default argument, a decorator, a comprehension
         idx = [k for k, l in enumerate(lines) if l.startswith('    ') and l.strip() and not l.strip().startswith(('global ', 'nonlocal ', 'case ', "'''", 'else', 'except', 'finally', 'elif'))]
         if idx:
@@ -269,8 +273,15 @@ def oracle_c11(res, r, tier):
              "__all__ = ['first_name', 'second_name']\nfirst_name = 1\nsecond_name = 2\nthird_name = first_name + second_name\n"]
     osets = [dict(o, convert_posargs_to_args=True) for o in scope_leg.optsets()] + [dict(rename_globals=True, remove_literal_statements=True)]
     cases = [{'source': s, 'options': osets[i % len(osets)]} for i, s in enumerate(srcs)]
+    special = ["def f():\n    global alpha, beta, gamma, delta\n    alpha = beta = gamma = delta = 1\n    return alpha + beta + gamma + delta\n",
+               "def g():\n    global first_value, second_value, third_value\n    first_value = second_value = third_value = 0\ndef h():\n    global third_value, second_value, first_value\n    return first_value, second_value, third_value\n",
+               "__all__ = ['first_name', 'second_name']\nfirst_name = 1\nsecond_name = 2\nthird_name = first_name + second_name\n",
+               "def k():\n    x_value = {'key one', 'key two', 'key three'}\n    return {name: len(name) for name in x_value}, 'key one', 'key two', 'key three', 'key one', 'key two', 'key three'\n"]
+    for sp in special:
+        for o in (osets[1], osets[3], dict(rename_globals=True), dict(rename_globals=True, hoist_literals=False)):
+            cases.append({'source': sp, 'options': o})
     n = 0
-    seeds = [0, 1, 2, 3, 'random'] if tier == 'quick' else list(range(16)) + ['random'] * 4
+    seeds = [0, 1, 2, 3, 4, 5, 'random', 'random'] if tier == 'quick' else list(range(24)) + ['random'] * 8
     from concurrent.futures import ThreadPoolExecutor
     with ThreadPoolExecutor(8) as ex:
         outs = list(ex.map(lambda sd: run_worker(cases, sd), seeds))
@@ -380,7 +391,7 @@ def run(pid, tier):
     res.assumptions = ['pick returns a name outside the set it is given (the real stream never repeats: C03_generated_names_distinct for lengths 1-2)',
                        'the binding table handed to NameAssigner is well formed (wf_bindingb, checked on every table by leg R)']
     translators = {'C03': ['namegen', 'pipeline'], 'C04': ['namegen', 'pipeline'], 'C06': [], 'C09': ['pipeline'], 'C10': ['pipeline'], 'C11': ['pipeline']}[pid]
-    models = ['Model/RenamerRun.vo', 'Proofs/RenamerProofs.vo'] + (['Model/Hoist.vo'] if pid == 'C06' else [])
+    models = ['Model/RenamerRun.vo', 'Proofs/RenamerProofs.vo', 'Model/ResolveRun.vo'] + (['Model/Hoist.vo'] if pid == 'C06' else [])
     common.standard_proof_phase(res, translators, 'Properties/%s.v' % pid, model_targets=models)
     r = common.rng(pid)
     eff = tier if (not res.broken or tier == 'thorough') else 'search'
